@@ -207,6 +207,10 @@ def corrupt(r, line_plain, version):
     return rec.text() + "\tzz:i:1\tzz:i:2", "duplicate_tag"
 
 
+def real_named_(m, version):
+    return [x for x in m.recs if M.name_of(x) is not None and not (version == "gfa1" and x.rt in "LC")]
+
+
 def build_fail(st, r, lazy=False):
     """A call built to fail in the current model state, or None."""
     version = st.version
@@ -218,6 +222,16 @@ def build_fail(st, r, lazy=False):
     k = gen.choice(r, [0, 1, 1, 1, 2, 3, 4, 5, 6, 7, 8, 9, 10, 10, 11, 12, 13, 13, 14, 14, 15, 16, 17, 18])
     if lazy and version == "gfa2" and gen.chance(r, 0.3):
         k = 18
+    if gen.fair(r, 0.012):
+        # an identifier of several thousand decimal digits (beyond what int() converts): legal, so the call is expected
+        # to succeed (which ends the case); should it raise, at whatever stage, the Gfa has to be as before
+        big = "9" * 4400
+        if real_named_(m, version) and gen.chance(r, 0.5):
+            cands = [i_ for i_, x in enumerate(m.recs) if M.name_of(x) is not None and not (version == "gfa1" and x.rt in "LC")]
+            return ["fail", "rename", gen.choice(r, cands), big, "huge_decimal_name"]
+        text = ("L\t%s\t+\t%s\t-\t*\tID:Z:%s" % (fa, fb, big)) if version == "gfa1" else gen.choice(r, [
+            "E\t%s\t%s+\t%s-\t0\t1\t0\t1\t*" % (big, fa, fb), "G\t%s\t%s+\t%s-\t5\t*" % (big, fa, fb), "U\t%s\t%s %s" % (big, fa, fb)])
+        return ["fail", "add", text, "huge_decimal_name"]
     if k == 18 and version == "gfa2":
         # an ordered group whose second item is not an oriented identifier: refused when the line is parsed,
         # or (vlevel 0) only when its items are resolved, after a placeholder for the first item was made;
@@ -336,6 +350,11 @@ def build_fail(st, r, lazy=False):
         if not pend or not segs:
             return None
         a, b = gen.choice(r, segs), gen.choice(r, segs)
+        longer = [x for x in segs if st.slen.get(x, 0) >= 2 and x in st.seq]
+        if longer and gen.chance(r, 0.35):
+            # ... or, as text, with a '$' on a position which is not the last one of a segment whose sequence is
+            # given (gfapy reports that on validate(), not here: the call is then expected to succeed)
+            return ["fail", "add", "E\t%s\t%s+\t%s-\t0\t1$\t0\t0\t*" % (gen.choice(r, pend), gen.choice(r, longer), b), "dollar_not_last_on_awaited"]
         return ["fail", "add_instance", "E\t%s\t%s+\t%s-\t5\t2\t0\t1\t*" % (gen.choice(r, pend), a, b), version,
                 "bad_interval_on_placeholder_v0"]
     if k == 13:
@@ -375,7 +394,7 @@ def build_fail(st, r, lazy=False):
 
 LAZY_KINDS = ("duplicate_id", "duplicate_id_instance", "group_tag_conflict", "group_named_like_other", "same_link_again",
               "same_link_again_instance", "other_version", "other_version_instance", "self_mention", "multiply_unknown_policy",
-              "unknown_name", "readonly_field", "ordered_item_without_orientation")
+              "unknown_name", "readonly_field", "ordered_item_without_orientation", "huge_decimal_name")
 
 
 def gen_case(r, version):
